@@ -91,7 +91,14 @@ class Front:
         us = r.sample(self.vars, min(k, self.nvars))
         body.append(f"    tz = ({', '.join(us)},)")
         body.append("    return 0")
-        src = HEADER + "@guppy\ndef main(" + ", ".join(params) + ") -> int:\n" + "\n".join(body) + "\n"
+        pre = ""
+        if r.random() < 0.35:
+            # a module-level function with the name of a local variable, and one that is only global
+            self.tags.add("global-names")
+            g = r.choice(self.vars)
+            pre = f"@guppy\ndef {g}() -> int:\n    return 0\n\n@guppy\ndef gg() -> int:\n    return 1\n\n"
+            body.insert(r.choice([0, len(body) - 2]), f"    tg = (gg, {g},)")
+        src = HEADER + pre + "@guppy\ndef main(" + ", ".join(params) + ") -> int:\n" + "\n".join(body) + "\n"
         return src, "main", sorted(self.tags)
 
 
